@@ -21,6 +21,10 @@ class Store:
         self.hook = None  # callable(event_tuple) called BEFORE the operation takes effect
         self.recording = True
         self.fail_reads = 0  # the next n reads raise OSError(EIO) (transient I/O error)
+        # products whose files are handed out as ONE shared file object per path (what fsspec's
+        # memory filesystem does): open() rewinds it, close() leaves it open
+        self.shared_products = set()
+        self.shared_handles = {}
 
     # --- content -------------------------------------------------------------------
     def put_product(self, name, files):
@@ -128,6 +132,9 @@ class TracedFile(io.RawIOBase):
         return len(chunk)
 
     def close(self):
+        if getattr(self, "shared", False):
+            self.store.log("close", self.path, self.handle)
+            return  # like fsspec's MemoryFile: the object stays usable
         if not self.closed:
             self.store.log("close", self.path, self.handle)
         super().close()
@@ -216,6 +223,14 @@ class VTraceFileSystem(AbstractFileSystem):
         if key not in self.store.files:
             self.store.log("open-missing", key)
             raise FileNotFoundError(path)
+        if key.split("/", 1)[0] in self.store.shared_products:
+            f = self.store.shared_handles.get(key)
+            if f is None:
+                f = self.store.shared_handles[key] = TracedFile(self.store, key, self.store.files[key])
+                f.shared = True
+            self.store.log("open", key, f.handle)
+            f.pos = 0
+            return f
         f = TracedFile(self.store, key, self.store.files[key])
         self.store.log("open", key, f.handle)
         return f
